@@ -173,6 +173,18 @@ int32_t matrixSslNewClientSession(ssl_t **ssl, const sslKeys_t *keys,
             sid->idLen = 0;
             Memset(sid->masterSecret, 0, SSL_HS_MASTER_SIZE);
             sid->cipherId = 0;
+# ifdef USE_STATELESS_SESSION_TICKETS
+            /* The session ticket names the session that was just dropped:
+               do not offer a ticket whose master secret we no longer have */
+            if (sid->sessionTicket != NULL)
+            {
+                psFree(sid->sessionTicket, sid->pool);
+                sid->sessionTicket = NULL;
+            }
+            sid->sessionTicketLen = 0;
+            sid->sessionTicketLifetimeHint = 0;
+            sid->sessionTicketState = SESS_TICKET_STATE_INIT;
+# endif
         }
     }
 
